@@ -35,7 +35,7 @@ type genCfg struct {
 var families = map[string]genCfg{
 	"flow": {Family: "flow", MaxNodes: 3, MaxDepth: 3, MaxStmts: 4, Opts: 3, Ifs: 2, Sets: 2, Jumps: 1.5, Stops: 0.7, Lines: 3,
 		Cmds: 0.7, Calls: 0.5, VisitLine: true, Storer: "recording"},
-	"flowbig": {Family: "flowbig", MaxNodes: 6, MaxDepth: 5, MaxStmts: 6, Opts: 3, Ifs: 2.5, Sets: 2, Jumps: 1.5, Stops: 0.5, Lines: 3,
+	"flowbig": {Family: "flowbig", MaxNodes: 5, MaxDepth: 4, MaxStmts: 5, Opts: 3, Ifs: 2.5, Sets: 2, Jumps: 1.5, Stops: 0.5, Lines: 3,
 		Cmds: 0.7, Calls: 0.5, VisitLine: true, Storer: "recording"},
 	"cmds": {Family: "cmds", MaxNodes: 2, MaxDepth: 2, MaxStmts: 4, Opts: 1.5, Ifs: 0.5, Sets: 1, Jumps: 0.7, Stops: 0.3, Lines: 2,
 		Cmds: 4, Calls: 0.3, PendCmds: true, FailCmds: true, Storer: "recording"},
